@@ -1,5 +1,5 @@
 """C11 unique constraints reject exactly the duplicates (CypherWrite.tla Mode C11, harness bin cywrite)."""
-from .cywrite_common import gen, trace_cfg, corrupt_dump
+from .cywrite_common import gen, trace_cfg, corrupt_dump, cap
 
 INV = "C11_NoDuplicate"
 PROPS = "C11_RefusedIffWouldDuplicate C05_ErrorChangesNothing"
@@ -11,15 +11,19 @@ def run(ctx):
     ctx.tlc_gen("MC_CypherWrite", gen("C11", 3, 1, 4, emit="", inv=INV, legacy='{"label_add_unchecked"}'),
                 "legacy-selftest", expect_violation=True, workers=4)
     # every transition of the abstract state graph (graph x registry) reached within the history bound
-    scripts = ctx.tlc_gen("MC_CypherWrite", gen("C11", 3, 1, 4 if q else 6, inv=INV, props=PROPS), "cover", timeout=3000)
+    # (one worker: strict breadth-first order, so the generated set does not depend on scheduling)
+    scripts = ctx.tlc_gen("MC_CypherWrite", gen("C11", 3, 1, 4 if q else 6, inv=INV, props=PROPS), "cover", timeout=3000, workers=1)
+    scripts = cap(ctx, scripts, 6000 if q else 60000, "cover")
     # long random histories: stale index entries need value changes, removals, deletions and id reuse to line up
     walks = ctx.tlc_gen("MC_CypherWrite", gen("C11", 3, 1, 12, view=False, emit="", inv=INV + " SimEmit"),
-                        "walks", simulate=(400 if q else 6000, 13), workers=4)
+                        "walks", simulate=(600 if q else 8000, 13), workers=4)
     ctx.assume("<= 3 live nodes addressed through a tag property p (label-less MATCH (n {p: tag}), so no index is involved in "
                "addressing); labels {A,B}; constrained key k with values {1,2,absent}; one constraint :A(k), created at any point",
                "a statement touches one node; multi-row statements and constraints are exercised by C05",
                "a stored null and an absent property are not distinguished")
     for name, ss in (("cover", scripts), ("walks", walks)):
         sp = ctx.write_scripts(name, ss)
-        tr = ctx.run_harness("cywrite", sp, name=name, args=["cap=8", "probes=0"])
-        ctx.validate("CypherWrite_Trace", trace_cfg(4, 1, False), tr, name=name, corrupt=corrupt_dump)
+        # probes=2: label index, MATCH (n:L) scans and the unique-constraint index itself (registered holder of every value);
+        # no index-backed property lookups: the ordinary property index is C02's subject
+        tr = ctx.run_harness("cywrite", sp, name=name, args=["cap=8", "probes=2", "universe=i1,i2"])
+        ctx.validate("CypherWrite_Trace", trace_cfg(4, 1, True), tr, name=name, corrupt=corrupt_dump)
